@@ -8,10 +8,18 @@ export CARGO_NET_OFFLINE=true
 # C16's Lean input is regenerated from the running code
 mkdir -p lean/RSVerif/Gen
 ./harness/target/release/rsharness c16-gen --out lean/RSVerif/Gen/LazyDeps.lean
+# C08/C09: the usize decision logic is translated from the current source (a failure here is reported by
+# the checks themselves, not by setup)
+python3 translate/rs2lean.py /repo lean/RSVerif/Gen/SrcEnvelope.lean || true
 mods=""
 for f in lean/RSVerif/Properties/C*.lean; do
   m=$(basename "$f" .lean)
   mods="$mods RSVerif.Properties.$m"
 done
-( cd lean && lake build rsmodel $mods )
+( cd lean && lake build rsmodel )
+# one property at a time: a module that no longer builds against the current /repo (regenerated inputs)
+# must not keep the others from being checked; its own check reports it
+for m in srcmodel $mods; do
+  ( cd lean && lake build $m ) || echo "setup: $m did not build; ./check.py reports it"
+done
 echo setup-ok
